@@ -146,7 +146,19 @@ def approx_equal(x, fr, tol=1e-6):
 
 
 def is_dyadic(scheme):
-    return all((x * 1024) == int(x * 1024) for x in list(scheme[0]) + list(scheme[1]))
+    # exactly summable: every penalty is an integer multiple of one power of two g, with penalty / g < 2**26 (sums of
+    # up to 2**26 such terms are exact in float64) - true for the quarter/sixteenth grids and for their products with
+    # any power of two
+    from fractions import Fraction
+    vals = [Fraction(x) for x in list(scheme[0]) + list(scheme[1]) if x != 0]
+    if not vals:
+        return True
+    den = max(v.denominator for v in vals)
+    if den & (den - 1):
+        return False
+    ints = [int(v * den) for v in vals]
+    low = min((i & -i) for i in ints)          # largest power of two dividing all of them
+    return max(ints) // low < 2 ** 26
 
 
 def check_score(x, fr, scheme, what):
